@@ -6,6 +6,8 @@ about the coefficient tables the translator regenerates from `_convolve.cpp` on 
 -/
 import Mahotas.Proofs.C17
 import Mahotas.Proofs.C17PR
+import Mahotas.Proofs.C17Resid
+import Mathlib.Algebra.Order.Ring.Rat
 namespace Mahotas.C17
 open Mahotas
 
@@ -24,6 +26,13 @@ def qmfWithin (eps : Rat) (t : List (Int × Nat)) : Bool :=
   let c := t.map toRat
   decide (absR (c.sum - 2) ≤ eps) && decide (absR (altSum c) ≤ eps) &&
   (List.range (c.length / 2)).all fun s => decide (absR (dot c s - (if s = 0 then 2 else 0)) ≤ eps)
+
+
+/-- proved reconstruction tolerances of the ten generated tables `D2 … D20` (relative to `max|f|`, exact
+    arithmetic), see `C17_tables_error_bound` -/
+def tableTol : List Rat :=
+  [0, 13 / 100000000, 19 / 100000000, 250 / 100000000, 17 / 100000000, 7 / 100000000, 81 / 100000000,
+   15 / 100000000, 7 / 100000000, 11 / 100000000]
 
 end Mahotas.C17
 
@@ -263,3 +272,112 @@ example : qmfExact ([3 / 5, 6 / 5, 2 / 5, -1 / 5] : List Rat) ∧
     have : s = 0 ∨ s = 1 := by simp at hs; omega
     rcases this with rfl | rfl <;> norm_num [List.range_succ]
   · decide
+
+/-- **C17-T6 (reconstruction error, rows).** For every filter length 2, 4, …, 20 and **every** coefficient list
+of that length (no hypothesis on the coefficients), over every field with `2 ≠ 0`: at every position
+`x ≥ ncoeffs − 2` of an even-length row the model of `iwavelet` applied to the model of `wavelet` returns
+`f x + errRow cs N f x`, where `errRow = ½ Σ_{j<n−1} resid(|j − (n/2−1)|) · f[x − (n−2) + 2j]` (zero outside the
+row) is *linear in the residuals* `resid cs s = Σ_k c_k c_{k+2s} − 2δ_s` of the quadrature-mirror identities.
+Over an ordered field, if `|f| ≤ M` on the row then `|iwavelet(wavelet f) x − f x| ≤ errConst cs · M` with
+`errConst cs = ½ Σ_{j<n−1} |resid(|j − (n/2−1)|)|`, and if every identity holds within `ε` then
+`errConst cs ≤ (n − 1)/2 · ε`. (`C17_pr_exact_row` is the case `ε = 0`.) -/
+theorem C17_reconstruction_error_bound_row {K : Type} [Field K] [LinearOrder K] [IsStrictOrderedRing K]
+    (cs : List K) (hl : cs.length ∈ errLengths) (N : Nat) (hN : N % 2 = 0) (f : Nat → K) (M : K) (hM : 0 ≤ M)
+    (hf : ∀ p, p < N → |f p| ≤ M) (x : Nat) (hx : cs.length ≤ x + 2) (hxN : x < N) :
+    iwaveletRow cs N (waveletRow cs N f) x = f x + errRow cs N f x ∧
+    |iwaveletRow cs N (waveletRow cs N f) x - f x| ≤ errConst cs * M ∧
+    (∀ eps : K, (∀ s, s < cs.length / 2 → |resid cs s| ≤ eps) →
+      |iwaveletRow cs N (waveletRow cs N f) x - f x| ≤ ((cs.length - 1 : Nat) : K) / 2 * eps * M) := by
+  have hid := rowIdentity_list (two_ne_zero) cs hl N hN f x hx hxN
+  have hb : |iwaveletRow cs N (waveletRow cs N f) x - f x| ≤ errConst cs * M := by
+    rw [hid, add_sub_cancel_left]
+    exact abs_errRow_le cs N f M hM hf x
+  refine ⟨hid, hb, ?_⟩
+  intro eps heps
+  have heven : cs.length % 2 = 0 := by
+    simp only [errLengths, List.mem_cons, List.not_mem_nil, or_false] at hl
+    omega
+  exact le_trans hb (mul_le_mul_of_nonneg_right (errConst_le cs heven eps heps) hM)
+
+/-- **C17-T6 (`reconstruction_error_bound`, images).** For every filter length 2, 4, …, 20, every coefficient
+list `cs` of that length whose quadrature-mirror identities `Σ_k c_k c_{k+2s} = 2δ_s` hold within `ε`
+(`|resid cs s| ≤ ε` for `s < n/2`; this is what `C17_tables_qmf_eps` establishes for the generated float32
+tables with `ε = 3·10⁻⁶`), every image with even sides and `|f| ≤ M`, over every ordered field: at every pixel
+`(y, x)` with `y, x ≥ ncoeffs − 2`
+
+`|idaubechies(daubechies f) y x − f y x| ≤ (2d + d²)·M`, `d = (n − 1)/2 · ε`,
+
+i.e. `C(n)·ε·M` with the explicit constant `C(n) = (n − 1)·(1 + (n − 1)ε/4)` (rows then columns: the column
+error `≤ dM`, then the row error of a row bounded by `(1 + d)M`). The sharper `d = errConst cs` (the actual
+residuals instead of `ε`) is the first conjunct. -/
+theorem C17_reconstruction_error_bound {K : Type} [Field K] [LinearOrder K] [IsStrictOrderedRing K]
+    (cs : List K) (hl : cs.length ∈ errLengths) (N0 N1 : Nat) (h0 : N0 % 2 = 0) (h1 : N1 % 2 = 0)
+    (f : Im K) (M : K) (hM : 0 ≤ M) (hf : ∀ y x, y < N0 → x < N1 → |f y x| ≤ M)
+    (y x : Nat) (hy : cs.length ≤ y + 2) (hyN : y < N0) (hx : cs.length ≤ x + 2) (hxN : x < N1) :
+    |idaubechies2 cs N0 N1 (daubechies2 cs N0 N1 f) y x - f y x|
+        ≤ (2 * errConst cs + errConst cs ^ 2) * M ∧
+    (∀ eps : K, (∀ s, s < cs.length / 2 → |resid cs s| ≤ eps) →
+      |idaubechies2 cs N0 N1 (daubechies2 cs N0 N1 f) y x - f y x|
+        ≤ (2 * (((cs.length - 1 : Nat) : K) / 2 * eps) + (((cs.length - 1 : Nat) : K) / 2 * eps) ^ 2) * M) := by
+  have hb := abs_round_trip_2d_le cs (rowIdentity_list (two_ne_zero) cs hl) N0 N1 h0 h1 f M hM hf y x hy hyN hx hxN
+  refine ⟨hb, ?_⟩
+  intro eps heps
+  have heven : cs.length % 2 = 0 := by
+    simp only [errLengths, List.mem_cons, List.not_mem_nil, or_false] at hl
+    omega
+  have hd := errConst_le cs heven eps heps
+  have d0 := errConst_nonneg cs
+  refine le_trans hb (mul_le_mul_of_nonneg_right ?_ hM)
+  have hsq : errConst cs ^ 2 ≤ (((cs.length - 1 : Nat) : K) / 2 * eps) ^ 2 := pow_le_pow_left₀ d0 hd 2
+  linarith
+
+/-- the constants of the generated tables, by exact rational arithmetic: table `code` has `2(code+1)` entries and
+    `2d + d² ≤ tableTol[code]` for its row constant `d = errConst` -/
+theorem tables_consts :
+    (List.range 10).all (fun code =>
+      decide ((coeffsOf code : List ℚ).length = 2 * (code + 1)) &&
+      decide (2 * errConst (coeffsOf code : List ℚ) + errConst (coeffsOf code : List ℚ) ^ 2
+        ≤ tableTol.getD code 0)) = true := by decide +kernel
+
+/-- **C17-T6 (proved tolerance of the ten generated tables).** For each of the ten tables `D2 … D20` the
+translator extracts (the float32 values the compiler stores, as exact rationals), in exact (rational) arithmetic:
+for every image with even sides and `|f| ≤ M`, at every pixel `(y, x)` with `y, x ≥ ncoeffs − 2`,
+`|idaubechies(daubechies f) y x − f y x| ≤ tableTol[code]·M` with
+`tableTol = (0, 1.3e-7, 1.9e-7, 2.5e-6, 1.7e-7, 7e-8, 8.1e-7, 1.5e-7, 7e-8, 1.1e-7)` — the instance of
+`C17_reconstruction_error_bound` at the tables' actual residuals (`decide +kernel` over ℚ). Every floating-point
+image is a rational image, so this covers every input of the correspondence run; what it does not cover is the
+rounding of the floating-point evaluation itself. The run uses `tableTol[code] + 1e-12` for float64 images. -/
+theorem C17_tables_error_bound (code : Nat) (hc : code < 10) (N0 N1 : Nat) (h0 : N0 % 2 = 0) (h1 : N1 % 2 = 0)
+    (f : Im ℚ) (M : ℚ) (hM : 0 ≤ M) (hf : ∀ y x, y < N0 → x < N1 → |f y x| ≤ M)
+    (y x : Nat) (hy : 2 * (code + 1) ≤ y + 2) (hyN : y < N0) (hx : 2 * (code + 1) ≤ x + 2) (hxN : x < N1) :
+    |idaubechies2 (coeffsOf code) N0 N1 (daubechies2 (coeffsOf code) N0 N1 f) y x - f y x|
+      ≤ tableTol.getD code 0 * M := by
+  have h := List.all_eq_true.mp tables_consts code (List.mem_range.mpr hc)
+  simp only [Bool.and_eq_true, decide_eq_true_eq] at h
+  obtain ⟨hlen, htol⟩ := h
+  have hl : (coeffsOf code : List ℚ).length ∈ errLengths := by
+    rw [hlen]
+    simp only [errLengths, List.mem_cons, List.not_mem_nil, or_false]
+    omega
+  have hb := (C17_reconstruction_error_bound (coeffsOf code : List ℚ) hl N0 N1 h0 h1 f M hM hf y x
+    (by rw [hlen]; exact hy) hyN (by rw [hlen]; exact hx) hxN).1
+  exact le_trans hb (mul_le_mul_of_nonneg_right htol hM)
+
+/-- **C17-T7 (`inline_only`).** In the wrapper model (`wrapCall`: `_as_floating_point_array`, then
+`_wavelet_array`'s `if not inline: return f.copy()`, then the in-place kernels) every wrapper returns the
+transform of its input, and the caller's array is written only when `inline=True` **and** the array is
+floating point — then it holds the result (it *is* the returned array); in every other case it is unchanged
+(integer input is always converted and copied, `inline=False` always copies). -/
+theorem C17_inline_only {α : Type} (T : Im α → Im α) (isFloat inline : Bool) (f : Im α) :
+    (wrapCall T isFloat inline f).2 = T f ∧
+    (wrapTarget isFloat inline = .input ↔ (inline = true ∧ isFloat = true)) ∧
+    (¬ (inline = true ∧ isFloat = true) → (wrapCall T isFloat inline f).1 = f) ∧
+    (inline = true ∧ isFloat = true → (wrapCall T isFloat inline f).1 = T f) := by
+  cases isFloat <;> cases inline <;> simp [wrapCall, wrapTarget]
+
+/-- non-vacuity of the error bound: the rational four-tap list `(3/5, 6/5, 2/5, −1/5 + 1/100)` violates the
+identities by a known amount (`resid 0 = −39/10000`, `resid 1 = 3/250`) and its row constant is `279/20000` -/
+example : ([3 / 5, 6 / 5, 2 / 5, -1 / 5 + 1 / 100] : List ℚ).length ∈ errLengths ∧
+    errConst ([3 / 5, 6 / 5, 2 / 5, -1 / 5 + 1 / 100] : List ℚ) ≤ 279 / 20000 ∧
+    279 / 20000 ≤ errConst ([3 / 5, 6 / 5, 2 / 5, -1 / 5 + 1 / 100] : List ℚ) := by
+  refine ⟨?_, ?_, ?_⟩ <;> decide +kernel
